@@ -582,6 +582,73 @@ fn check_series(start: f64, incs: &[f64], ys: &[f64], nan_mask: &[bool], ops: &[
         let got = cur.area_under();
         ensure!((got - a).abs() <= 1e-9 * (abs + 1e-300), "C17/area_under/trapezoid", "area_under = {got:e}, trapezoid sum {a:e}");
     }
+    // derivations that keep the abscissae and replace the ordinates (smoothing, derivative, pointwise scaling, adding or
+    // subtracting a function): same abscissae, one ordinate per abscissa, values by their definitions
+    if m.ys.iter().all(|y| y.is_finite()) {
+        cx.label("y_only_derivations");
+        let same_x = |site: &str, d: &Series1| -> Result<(), Failure> {
+            let dx: Vec<f64> = d.x.values().to_vec();
+            crate::ensure_r!(d.y.len() == dx.len(), format!("C17/{site}/length_mismatch"), "{site}: {} abscissae but {} ordinates (parent has {} knots)", dx.len(), d.y.len(), n);
+            crate::ensure_r!(dx == m.xs, format!("C17/{site}/abscissae"), "{site} changed the abscissae: {:?} -> {:?}", m.xs, dx);
+            Ok(())
+        };
+        let sg = match guarded(|| cur.savitzky_golay()) {
+            Ok(d) => d,
+            Err(msg) => return Verdict::fail("C17/savitzky_golay/panic", format!("{msg}; {n} knots")),
+        };
+        if let Err(f) = same_x("savitzky_golay", &sg) {
+            return Verdict::Fail(f);
+        }
+        let w = [-3.0, 12.0, 17.0, 12.0, -3.0];
+        for j in 0..n {
+            let (mut sum, mut tot) = (0.0, 0.0);
+            for (k, wk) in w.iter().enumerate() {
+                let i = j as i64 + k as i64 - 2;
+                if i >= 0 && (i as usize) < n {
+                    sum += wk * m.ys[i as usize];
+                    tot += wk;
+                }
+            }
+            let e = sum / tot;
+            ensure!((sg.y[j] - e).abs() <= 1e-9 * (1.0 + m.ymax()), "C17/savitzky_golay/value", "smoothed ordinate {j} of {n} is {:e}, the 5-point kernel truncated to the series gives {e:e}; y={:?}", sg.y[j], m.ys);
+        }
+        cx.label_if(n <= 3, "smoothing_short_series");
+        // the series itself as the function: y*y, y+y, y-y at the knots (a repeated abscissa makes f(x) one of two values)
+        if !m.has_repeat() {
+            let f: &dyn Func1 = &cur;
+            for (site, d, exp) in [
+                ("scaled_y", guarded(|| cur.scaled_y(f)), Box::new(|y: f64| y * y) as Box<dyn Fn(f64) -> f64>),
+                ("add", guarded(|| &cur + f), Box::new(|y: f64| y + y)),
+                ("sub", guarded(|| &cur - f), Box::new(|y: f64| y - y)),
+            ] {
+                let d = match d {
+                    Ok(d) => d,
+                    Err(msg) => return Verdict::fail(format!("C17/{site}/panic"), msg),
+                };
+                if let Err(f) = same_x(site, &d) {
+                    return Verdict::Fail(f);
+                }
+                for j in 0..n {
+                    let e = exp(m.ys[j]);
+                    ensure!((d.y[j] - e).abs() <= 1e-9 * (1.0 + e.abs()), format!("C17/{site}/value"), "{site} with the series itself as the function: ordinate {j} is {:e}, expected {e:e}", d.y[j]);
+                }
+            }
+            if n >= 2 {
+                let dd = match guarded(|| cur.dydx()) {
+                    Ok(d) => d,
+                    Err(msg) => return Verdict::fail("C17/dydx/panic", msg),
+                };
+                if let Err(f) = same_x("dydx", &dd) {
+                    return Verdict::Fail(f);
+                }
+                for j in 0..n {
+                    let (a, b) = (if j == 0 { 0 } else { j - 1 }, if j == n - 1 { n - 1 } else { j + 1 });
+                    let e = (m.ys[b] - m.ys[a]) / (m.xs[b] - m.xs[a]);
+                    ensure!((dd.y[j] - e).abs() <= 1e-9 * (1.0 + e.abs()), "C17/dydx/value", "derivative at knot {j} is {:e}, the difference quotient over its neighbours is {e:e}", dd.y[j]);
+                }
+            }
+        }
+    }
     // the remaining read-only queries of the public API, against a scan of the stored knots
     if n >= 2 && !m.has_repeat() && m.ys.iter().all(|y| y.is_finite()) {
         cx.label("scan_queries");
